@@ -297,6 +297,8 @@ type cluster struct {
 	wireQ   []*wireMsg
 	timeoutNows []timeoutNowRec
 	probe       *pendingTask
+	cfgProbe    *pendingTask
+	eagerLeader map[uint64][]uint64 // term -> nodes that entered Leader state (filled inside the callback)
 	snapSeen    map[string]bool
 	respInStep       map[uint64]int // responses written per node in the current step (under simNet.mu)
 	deliveryStep     bool // current step only releases bytes while the network is gated (no timer can fire)
@@ -350,6 +352,7 @@ func newCluster(seed int64) *cluster {
 		mons:     map[int]*streamMon{},
 		respInStep: map[uint64]int{},
 		snapSeen: map[string]bool{},
+		eagerLeader: map[uint64][]uint64{},
 		nextCmd:  1,
 		shutdownOnRemove: true,
 	}
@@ -779,6 +782,9 @@ func installTracer() {
 	tracer.stateChanged = func(r *Raft) {
 		with(r, "state", func(c *cluster, e *event) {
 			if r.state == Leader {
+				c.evMu.Lock()
+				c.eagerLeader[e.term] = append(c.eagerLeader[e.term], e.nid)
+				c.evMu.Unlock()
 				// runs on the raft goroutine: reading its log here is safe
 				e.cfg = r.configs.clone()
 				e.prev, e.snap = r.log.PrevIndex(), r.snaps.index
